@@ -48,7 +48,9 @@ def ref_base_ok(b, log):
     return False
 
 
-FOREIGN_OPERANDS = [3, 2.0, 0, "x", None, True, (1,), [1], object(), complex(0, 1), float("nan")]
+FOREIGN_OPERANDS = [3, 2.0, 0, "x", None, True, (1,), [1], object(), complex(0, 1), float("nan"), [], (),
+                    [smx.Variable("y")], (smx.Variable("y"), smx.Variable("z")), [smx.Variable("y"), smx.Constant(2)],
+                    {"x": smx.Variable("y")}, {smx.Variable("y")}, 0.0, -0.0, False, 1]
 NEAR_INTEGERS = [3.0000000000000004, 0.9999999999999999, 1.0000000000000002, 2.0000000000001, 1.9999999999999998,
                  4.000000000000001, 1e15 + 0.5, 0.1 * 3 * 10, 5.000000000001, 1e-300, 7 - 1e-12]
 EXPONENTS = list(range(-3, 7)) + [float(k) for k in range(-3, 7)] + NEAR_INTEGERS + [0.5, 1.5, 2.5, -0.5, 2.0000001, 1e-9,
@@ -135,6 +137,18 @@ def run_c15(tier, seed):
                                          f"{c[1]!r}" if c[0] == "ok" else f"{label} raised {c}", "op": sym})
                 else:
                     st.inc("nontrivial")
+    # augmented assignment is the same operator: a += b must build what a + b builds
+    import operator as _op
+    for (ta, a), (tb, b) in list(itertools.product(exprs[:25], repeat=2)):
+        for sym, fn, ifn, tag in (("+=", _op.add, _op.iadd, "add"), ("-=", _op.sub, _op.isub, "minus"), ("*=", _op.mul, _op.imul, "mul"),
+                                  ("/=", _op.truediv, _op.itruediv, "div"), ("**=", _op.pow, _op.ipow, "pow")):
+            st.inc("transitions")
+            c = A.construct(lambda: ifn(a, b))
+            if c[0] != "ok" or not same_objects(c[1], tag, [a, b]):
+                st.violation({"why": f"a {sym} b with a = {M.show(ta)}, b = {M.show(tb)} built "
+                                     f"{c[1]!r}" if c[0] == "ok" else f"a {sym} b raised {c}", "op": sym})
+            elif ta[0] == tag:
+                st.inc("nontrivial")
     # unary minus, exponents, foreign operands
     for ta, a in exprs:
         st.inc("transitions")
@@ -256,6 +270,16 @@ def run_c16(tier, seed):
             st.inc("transitions")
             if A.construct(lambda: cls(inner))[0] == "ok":
                 st.violation({"why": f"{cls.__name__}(inner) without n was accepted"})
+    # --- the ** operator builds NthPower objects too: it must apply the same range to n
+    for ti, inner in inners[:2]:
+        for n in n_menu:
+            ok = ref_n_ok(n)
+            if ok is None:
+                continue
+            c = A.construct(lambda: inner ** n)
+            obj = judge(f"({M.show(ti)}) ** {n!r}", ok, c)
+            if obj is not None and (obj.__class__ is not smx.NthPower or type(obj.n) is not int or obj.n != int(n)):
+                st.violation({"why": f"({M.show(ti)}) ** {n!r} built {obj!r}"})
     # --- base of Exponential / Logarithm
     for tag, cls, is_log in (("exp", smx.Exponential, False), ("log", smx.Logarithm, True)):
         for ti, inner in inners:
